@@ -2,6 +2,7 @@
 use crate::{Ctx, Suite};
 
 pub mod c01;
+pub mod c02;
 pub mod c03;
 pub mod c04;
 pub mod c05;
@@ -19,10 +20,12 @@ pub mod c16;
 pub mod c17;
 pub mod c18;
 pub mod c19;
+pub mod c20;
 
 pub fn run<C: Suite>(ctx: &mut Ctx) {
     match ctx.prop.clone().as_str() {
         "C01" => c01::run::<C>(ctx),
+        "C02" => c02::run::<C>(ctx),
         "C03" => c03::run::<C>(ctx),
         "C04" => c04::run::<C>(ctx),
         "C05" => c05::run::<C>(ctx),
